@@ -447,14 +447,16 @@ class Ovld:
     def add_mixins(self, *mixins):
         self._attempt_modify()
         mixins = [o for m in mixins if (o := to_ovld(m)) is not self]
+        if mixins:
+            # If this ovld or a linked child is already in use, rebuild so that
+            # the new methods are visible
+            built = self._invalidate()
         for mixin in mixins:
             if self.linkback:
                 mixin.children.append(self)
         self.mixins += mixins
         if mixins:
-            # If this ovld or a linked child is already in use, rebuild so that
-            # the new methods are visible
-            self._update()
+            self._update(built)
 
     def _key_error(self, key, possibilities=None):
         typenames = sigstring(key)
@@ -512,13 +514,31 @@ class Ovld:
             # Never leave a half-built function in service: go back to the
             # "not built yet" state, so that the next use starts over (and
             # fails again if a registered method is invalid)
-            self._compiled = False
-            if hasattr(self, "dispatch"):
-                boot = bootstrap_dispatch(self, name=self.shortname)
-                self.dispatch.__code__ = boot.__code__
-                self.dispatch.__defaults__ = None
-                self.dispatch.__kwdefaults__ = None
+            self._unbuild()
             raise
+
+    def _unbuild(self):
+        """Go back to the "not built yet" state."""
+        self._compiled = False
+        if hasattr(self, "dispatch"):
+            boot = bootstrap_dispatch(self, name=self.shortname)
+            self.dispatch.__code__ = boot.__code__
+            self.dispatch.__defaults__ = None
+            self.dispatch.__kwdefaults__ = None
+
+    def _invalidate(self):
+        """Take this ovld and its linked children out of service before a change.
+
+        Returns those that were built: _update() rebuilds them after the change.
+        If we are interrupted in between, they are simply rebuilt on next use.
+        """
+        built = []
+        if self._compiled:
+            self._unbuild()
+            built.append(self)
+        for child in self.children:
+            built.extend(child._invalidate())
+        return built
 
     def _compile(self):
         self._lock_unlinked_ancestors()
@@ -591,22 +611,28 @@ class Ovld:
                 _set(msig, self._defns[sig])
             self._defns[sig] = fn
 
+        built = self._invalidate()
         _set(sig, fn)
 
-        self._update()
+        self._update(built)
         return self
 
     def unregister(self, fn):
         """Unregister a function."""
         self._attempt_modify()
+        built = self._invalidate()
         self._defns = {sig: f for sig, f in self._defns.items() if f is not fn}
-        self._update()
+        self._update(built)
 
-    def _update(self):
-        if self._compiled:
-            self.compile()
+    def _update(self, built=()):
+        for ov in built:
+            if not ov._compiled:
+                ov.compile()
+        self._update_doc()
+
+    def _update_doc(self):
         for child in self.children:
-            child._update()
+            child._update_doc()
         if hasattr(self, "dispatch"):
             self.dispatch.__doc__ = self.mkdoc()
 
